@@ -371,6 +371,11 @@ func (r *registry) gql(t *Ty) graphql.Type {
 		}
 		e := &graphql.EnumType{Name: t.Name, Values: map[string]*graphql.EnumValueDefinition{}}
 		for _, v := range t.Vals {
+			if nilValued(t.Name, v) {
+				// an enum value declared without a Go value: what a resolver receives for it is nil
+				e.Values[v] = &graphql.EnumValueDefinition{}
+				continue
+			}
 			e.Values[v] = &graphql.EnumValueDefinition{Value: enumVal{v}}
 		}
 		r.enums[t.Name] = e
